@@ -126,7 +126,7 @@ Definition parse_ang (hdr : list angline) (rows : list (list (num (T:=T)))) : re
   let h := phases_from_header hdr in
   let '(vendor, names, warn) := ang_columns hdr (ncols_of rows) in
   bind (assign_cols names 0 rows (mkAD [] [])) (fun d =>
-  bind (phaselist Op (h_ids h) (h_names h) [] (h_pgs h)
+  bind (phaselist Op (h_ids h) (h_names h) [] (map Some (h_pgs h))
           (firstn (List.length (h_names h)) (h_lats h))) (fun pl =>
   let pid0 := map nint (core "phase_id" d) in
   let pid :=
